@@ -5,6 +5,7 @@ package task_test
 
 import (
 	"context"
+	stderrors "errors"
 	"fmt"
 	"os"
 	"path/filepath"
@@ -394,10 +395,43 @@ func runG(t *testing.T, ch *vs.Choices, prop, tier string, render bool) *vs.RunO
 				if guardOnly && !exitOnly {
 					prop = "C13"
 				}
-				verdicts = append(verdicts, gVerdict{prop, "exit_status_wrong|" + strings.Join(sortedKeys(origins), ",") + fmt.Sprintf("|x=%v", p.ExitCodeFlag),
+				sig := "exit_status_wrong|" + strings.Join(sortedKeys(origins), ",") + fmt.Sprintf("|x=%v", p.ExitCodeFlag)
+				if stderrors.Is(x.err, context.Canceled) {
+					// nobody cancelled the caller's context: the cancellation error of a shared execution, cut
+					// short by a failure in its first caller's group, surfaced through a waiter in another group
+					nShared := 0
+					for _, in := range m.order {
+						if in.Shared {
+							nShared++
+						}
+					}
+					if nShared > 0 {
+						sig = "exit_status_is_context_canceled|via_shared_execution"
+					}
+				}
+				verdicts = append(verdicts, gVerdict{prop, sig,
 					fmt.Sprintf("exit status %d (%s: %v), allowed %v", code, class, x.err, sortedIntKeys(set))})
 			}
 		}
+	}
+	// Documented behaviour that contradicts C13 as written: --force skips preconditions. Once a run contains
+	// a forced task whose precondition fails, the model and the program disagree about everything behind it;
+	// such a run is only used to report that one (known) finding.
+	tainted := false
+	for _, in := range m.order {
+		if in.Guard == "precond|forced" {
+			tainted = true
+		}
+	}
+	if tainted {
+		var keep []gVerdict
+		for _, v := range verdicts {
+			if v.Prop == "C13" && v.Sig == "guard_ignored|precond|forced" {
+				keep = append(keep, v)
+			}
+		}
+		verdicts = keep
+		out.Hit("tainted_forced_precondition")
 	}
 	for _, v := range verdicts {
 		if v.Prop == prop {
